@@ -5,14 +5,14 @@ V='/verif'
 claims = {
  'C01': ('proof', "Every assertion of the oracle is decided by the SMT solver (unsat) for all 64-bit heights, all instants in range, all chain-id equalities and all six type-level outcomes on every path of the real Verify/verify SSA; no loop, hence no unrolling bound.", "Instantiation H=zzH only; clock constant during one call; instants within +-2^61 ns. Trusted: go/ssa, gse executor and its time/errors/fmt intrinsics, oracle in props/C01, z3."),
  'C02': ('model_checking', "Bounded: every input sequence of length <= N (3 quick, 5 thorough) incl. nil entries and aliases, arbitrary per-pair type-level verdicts; the VerifyRange loop is unrolled exactly (concrete slice lengths), each path decided for all heights/times by the solver.", "Ranges longer than N are outside the claim. Same trusted base as C01."),
- 'C04': ('model_checking', "Bounded histories (Append of any sub-run / Sync / restart / DeleteRange, after an optional flushed prelude) over a K-chain on the real Store, keytransform, namespace and 2Q-LRU code, four covering store configurations (full product in thorough); the public API is compared with a reference model after a final Sync.", "One run-to-block schedule per history (interleavings are C12/C17). K<=3,L<=2 quick; K<=4,L<=4 thorough. Datastore = zzMemDS contract (atomic writes/commits)."),
- 'C08': ('model_checking', "Every flushed/pending split of a K-chain x every (from,to) pair around the chain ends x four store configurations, then continuation appends, flush and restart on the real Store; plus unconstrained 64-bit (from,to) for the rejection rule.", "Sequential delete path only (deleteParallel outside); K<=3 quick, 5 thorough; datastore contract zzMemDS."),
+ 'C04': ('model_checking', "Bounded histories (Append of any sub-run / Sync / restart / DeleteRange, after an optional flushed prelude) over a K-chain on the real Store, keytransform, namespace and 2Q-LRU code, four covering store configurations; the public API is compared with a reference model after a final Sync.", "One run-to-block schedule per history (interleavings are C12/C17). K<=3,L<=2 quick; K<=3,L<=3 thorough (BOUNDS.md). Datastore = zzMemDS contract (atomic writes/commits)."),
+ 'C08': ('model_checking', "Every flushed/pending split of a K-chain x every (from,to) pair around the chain ends x four store configurations, then continuation appends, flush and restart on the real Store; plus unconstrained 64-bit (from,to) for the rejection rule.", "Sequential delete path only (deleteParallel outside); K<=3 in both tiers (BOUNDS.md); datastore contract zzMemDS."),
  'C09': ('model_checking', "Quorum lemma decided for every n in [0,2^31) (proof-level unit); Head() explored for <=3 (quick) / 5 (thorough) peers, every assignment of answers over D distinct headers with unconstrained 64-bit heights and arbitrary verdicts against the trusted head, tracker empty or not; arrival orders covered by peer symmetry.", "Network cut at sendMessage (stub); hanging peers and cancellation not in this check; libp2p not encoded."),
  'C10': ('model_checking', "handleRangeRequest/handleHeadRequest/handleRequestByHash executed for unconstrained 64-bit origin, amount, tail, head (no loop) against a logging contract store: read bounds, clamp rule, limit, head and hash answers decided by the solver.", "libp2p streams, their deadlines and resets are environment; request bytes come from a catalogue of frames, not from an arbitrary symbolic buffer."),
  'C11': ('proof', "Finite catalogue (payload 5 x decode 3 x validate 3 x verifier 11) explored exhaustively on the real verifyMessage/extractHeader SSA; every obligation discharged.", "Assumes the documented pubsub validator contract (Accept = deliver+relay, Reject = penalise, Ignore = neither); libp2p-pubsub itself is not encoded."),
  'C13': ('model_checking', "Get/GetByHeight against <=2 (quick) / 3 (thorough) trusted peers, each answering with an error, a hang, or 0..2 responses with a defect from the catalogue (symbolic unknown status codes); request timeouts fire at quiescence.", "Network cut at sendMessage; arrival order = peer order (symmetry argument); response lists <= 2."),
  'C14': ('model_checking', "C08's scenarios with 1-2 handlers that read their header back; one handler call fails or panics at every position; exactly-once, readable-at-call, kept-on-failure and retry clauses checked.", "Sequential delete path; at most one failing handler call; K<=3 quick."),
- 'C15': ('model_checking', "incomingNetworkHead/verify/verifyBifurcating for every distance d<=D, symbolic subjective height, arbitrary verdict function over pairs (soundness, refusal, termination bound) and trust-range verdicts (completeness); getter failure at any request.", "D<=5/12 quick, 9/40 thorough; store = specification store; pending empty at entry."),
+ 'C15': ('model_checking', "incomingNetworkHead/verify/verifyBifurcating for every distance d<=D, symbolic subjective height, arbitrary verdict function over pairs (soundness, refusal, termination bound) and trust-range verdicts (completeness); getter failure at any request.", "D<=5/12 quick, 7/40 thorough; store = specification store; pending empty at entry."),
  'C16': ('model_checking', "estimateTailHeight and findTailHeight executed for every Parameters value accepted by the real Validate, symbolic heights/times (division kernels decided by cvc5 --solve-bv-as-int); chains of K+1 headers for the retention clause and for wrap-around on slow/halted chains. One KNOWN-FINDING (retention, estimate-from-head).", "Scan loop <= SCANS iterations (find-sym), chains <= K+1 (find-chain*)."),
 }
 pending = {
@@ -27,13 +27,13 @@ pending = {
 }
 
 claims.update({
- 'C03': ('model_checking', "The real Syncer (Start, verifier, sync loop thread, Head() threads) is executed over a specification store and a contract-abiding getter; G gossip deliveries of any canonical header, of forged headers with an unconstrained 64-bit height (solver-decided), wrong-chain / future-dated headers and forks of already stored heights, interleaved at every getter request with the sync loop; store contiguity, batch shape, no-overwrite, refusal and never-stored clauses checked after every delivery and at quiescence.", "Schedules: pre-emption only at gates (before deliveries, inside getter requests), bound 1 quick / 2 thorough; K<=4, G<=2 quick. The real Store is C04's subject."),
+ 'C03': ('model_checking', "The real Syncer (Start, verifier, sync loop thread, Head() threads) is executed over a specification store and a contract-abiding getter; G gossip deliveries of any canonical header, of forged headers with an unconstrained 64-bit height (solver-decided), wrong-chain / future-dated headers and forks of already stored heights, interleaved at every getter request with the sync loop; store contiguity, batch shape, no-overwrite, refusal and never-stored clauses checked after every delivery and at quiescence.", "Schedules: pre-emption only at gates (before deliveries, inside getter requests), bound 1 (2 in the thorough-only unit gossip-between-reads); K<=4, G<=2 quick, K<=5 thorough (BOUNDS.md). The real Store is C04's subject."),
  'C05': ('model_checking', "GetRangeByHeight through the real session / peer queue / prepareRequests / processResponses / VerifyRange code for every (from,to) around a short chain incl. unconstrained degenerate 'to' values (solver-decided), chunk sizes {1,2,3,64}, 1-2 (3) peers and one (two) misbehaving answers from a 12-entry catalogue per run.", "Network cut at sendMessage (its response-count cap is therefore outside); bounded misbehaviour budget; N<=6 quick."),
  'C06': ('model_checking', "Clean restart (Stop directly after the last operation, compared with a synced reference run of the same history), crash at EVERY prefix of the datastore commit log, and windows of 1-3 failing writes, over histories of appends, syncs and deletions on the real Store, four configurations.", "Atomicity of one commit / one direct write is the assumed datastore contract; K<=3, L<=2 quick; one schedule per history."),
  'C07': ('model_checking', "Bounded liveness at quiescence: valid heads (adjacent, skipping, bursts during a running sync, also learned through concurrent Head() calls), prefixes of any length from the getter and up to 2 getter errors; the store head must reach the newest verified head, State()/SyncWait must report completion, an error must be reported and nothing lost otherwise.", "'Eventually' = quiescence of the bounded run; K<=7, G<=3 quick; schedules as in C03."),
- 'C12': ('model_checking', "Readers (2) blocked in GetByHeight vs appends (contiguous, gapped, out of order, mixed batches) and per-reader cancellations on the real Store; scheduling points at every datastore operation; the lost wake-up found here was fixed (KNOWN_FINDINGS).", "Pre-emption only at datastore operations / writer gates, bound 1 quick, 2 thorough; data races outside."),
- 'C17': ('model_checking', "Two writers, a reader and an optional tail-side / whole-range deleter on the real Store: monotone Head/Height, Head retrievable, read-your-synced-writes, equality with a sequential execution, gap-free chain after racing deletion.", "Sequentially consistent interleavings with pre-emption at datastore operations only (bound 1 quick; 2-3 thorough); 3-4 writers, real-thread schedules and the race detector are outside this technique."),
- 'C18': ('model_checking', "Client session code composed with the real ExchangeServer.handleRangeRequest as each peer's behaviour: every range length 1..3 x chunk, chunk sizes {1,2,3} ({..5,64} thorough), 1-2 (3) peers, every availability prefix and benign fault (prefix once, timeout once, disconnect, stall after a prefix) with one fault-free capable peer.", "libp2p streams are replaced by an in-memory pipe in the wire-e2e unit; one server there."),
+ 'C12': ('model_checking', "Readers (2) blocked in GetByHeight vs appends (contiguous, gapped, out of order, mixed batches) and per-reader cancellations on the real Store; scheduling points at every datastore operation; the lost wake-up found here was fixed (KNOWN_FINDINGS).", "Pre-emption only at datastore operations / writer gates, bound 1 in both tiers (one more store configuration in thorough); data races outside."),
+ 'C17': ('model_checking', "Two writers, a reader and an optional tail-side / whole-range deleter on the real Store: monotone Head/Height, Head retrievable, read-your-synced-writes, equality with a sequential execution, gap-free chain after racing deletion.", "Sequentially consistent interleavings with pre-emption at datastore operations only (bound 1-2 quick; 2-3 thorough, see BOUNDS.md); 3-4 writers, real-thread schedules and the race detector are outside this technique."),
+ 'C18': ('model_checking', "Client session code composed with the real ExchangeServer.handleRangeRequest as each peer's behaviour: every range length 1..3 x chunk, chunk sizes {1,2,3} ({..5,64} thorough), 1-2 peers, every availability prefix and benign fault (prefix once, timeout once, disconnect, stall after a prefix) with one fault-free capable peer.", "libp2p streams are replaced by an in-memory pipe in the wire-e2e unit; one server there."),
 })
 claims['C19'] = ('model_checking', "One Head() call from an arbitrary reachable state (stored prefix of a chain with symbolic ages, optional gossip head, optional clock advance, every Parameters value in range) with any getter answer (error, fresh, stale, expired, lower header): zero / exactly one request, trusted head carried, no expired initialisation, no downgrade; monotonicity across calls follows by induction from 'result >= subjective head at entry' and 'subjective head never moves backwards'.", "Durations and ages below 2^40 ns; sequences of calls only by induction (two-call exploration did not finish in 40 min).")
 for k in ['C03','C05','C06','C07','C12','C17','C18','C19']:
@@ -88,7 +88,7 @@ m={
  "engines": [{"name": "gse", "path": "/verif/gse", "serves_properties": sorted(claims), "kind_free_text": "bounded symbolic executor over go/ssa of the real code (threads, channels, contexts, timers); SMT (z3 4.8.12 / cvc5 1.0.3 bv-as-int) decides every branch and assertion; every model is replayed natively (go test -overlay, testing/synctest)"}],
  "checks": checks,
  "not_applicable": [{"property_id": k, "reason": v} for k,v in sorted(pending.items())],
- "notes": "fix: commits in /repo and the recorded finding are listed in /verif/KNOWN_FINDINGS.txt; seeded changes and which checks catch them: /verif/seeded and DESIGN.md"
+ "notes": "fix: commits in /repo and the recorded findings are listed in /verif/KNOWN_FINDINGS.txt; registered bounds per unit and tier: /verif/BOUNDS.md; seeded changes and which checks catch them: /verif/seeded and DESIGN.md section 10"
 }
 json.dump(m, open(os.path.join(V,'MANIFEST.json'),'w'), indent=1)
 print("checks:", len(checks), "not_applicable:", len(pending))
